@@ -169,6 +169,8 @@ def run(ctx):
         # language the itext block does not mark as default
         r3.check(env.get("default_language") == exp["default_language"], f"grouping language[{desc}]", f"unsuffixed cells are grouped under {exp['default_language']!r}, the survey's default language",
                  w2j.loc(), why_fail=f"local default_language = {env.get('default_language')!r}")
+    from .c20 import duplicate_id_headers
+    duplicate_id_headers(ctx, r3, w2j, "C11.R3")
     # fallback form name plumbing
     gdd = ctx.func("pyxform.xls2json_backends:get_definition_data", "C11.R3")
     stem = [x for x in walk_own(gdd.node) if isinstance(x, ast.Assign) and isinstance(x.targets[0], ast.Name) and x.targets[0].id == "file_path_stem" and "stem" in norm(x.value)]
